@@ -385,7 +385,13 @@ impl Display for SequencedSegment {
 
 impl StreamSocket {
     fn new(capacity: usize) -> (Self, mpsc::Receiver<SequencedSegment>, BidiFlowControl) {
-        let (tx, rx) = mpsc::channel(capacity);
+        // One slot beyond `capacity` is reserved for the FIN: flow control
+        // bounds unread *data* segments to `capacity`, but the FIN needs no
+        // credit. Without the extra slot a FIN arriving while the queue holds
+        // `capacity` unread segments is parked in the reorder buffer, and since
+        // nothing arrives after a FIN it is never flushed (no EOF for the
+        // reader).
+        let (tx, rx) = mpsc::channel(capacity + 1);
         let flow_control = BidiFlowControl::new(capacity);
         let sock = Self {
             buf: IndexMap::new(),
